@@ -5,7 +5,8 @@ REQUIRED = ["CifModel.C08_firstChar_link", "CifModel.C08_fold_prefix", "CifModel
             "CifModel.C08_chunking_irrelevant", "CifModel.C08_style_independent", "CifModel.C08_handle_eol",
             "CifModel.C08_line_numbers", "CifModel.C08_unrepaired_first_char", "CifModel.C08_cex_three_cr",
             "CifModel.C08_buffer_moves_preserve_token", "CifModel.C08_buffer_cases", "CifModel.C08_buffer_room",
-            "CifModel.C08_buffer_init"]
+            "CifModel.C08_buffer_init", "CifModel.C08_ws_lengthening", "CifModel.C08_ws_lengthening_insert",
+            "CifModel.C08_ws_lengthening_any_chunking"]
 GEN = ["ParseConsts"]
 FAMILIES = ["fills", "align"]
 TRUSTED_BASE = [
@@ -31,18 +32,23 @@ ASSUMPTIONS = [
     "scan_triple_delim_string, scan_text as written)",
 ]
 PARTIAL = [
-    "C08_ws_lengthening_full (lengthening insignificant whitespace never changes later tokens) is stated as a def over the "
-    "token-level lexer model owned by the lexer group (C01); here it is covered only by correspondence: family `align` pads "
-    "documents with whitespace/comments to every alignment and compares the parse with the unpadded form",
-    "scan-buffer compaction/expansion and the 4096-byte refill of ustream_read_chars are observed, not proved (families fills "
-    "modes k/h with streams > 131200 units, align with 70 000 / 140 000-unit tokens)",
+    "the 4096-byte refill of ustream_read_chars and ICU's incremental conversion are observed, not modelled (family align); the "
+    "scan buffer's compaction / doubling is modelled (Model/ScanBuf.lean, C08_buffer_moves_preserve_token) and tied by fills "
+    "mode o, but the composition 'every scanner function re-reads its pointers after a refill' (the G2 class of defect) is "
+    "correspondence-only",
+    "C08_ws_lengthening requires the two separators to end in the same column (lengthening blanks in front of a token on the "
+    "same line moves the token: `;` in column 1 and the 2048-character limit make that a genuine precondition) and a "
+    "callback policy that does not look at line numbers",
 ]
 LEVEL_TEXT = ("Proof for terminator folding and chunking: Lean theorems over ALL inputs, ALL chunkings by the character source "
               "and ALL request-size sequences show that the scanner is handed exactly normalizeEOL(input) "
               "(C08_fold_any_chunking), hence any function of it — content, error codes, line numbers — is independent of "
               "terminator style (C08_style_independent, C08_line_numbers), and that HANDLE_EOL counts CR LF once on any "
-              "stream (C08_handle_eol). Buffer mechanics and whitespace lengthening are covered by differential execution only.")
-LEVEL_NOTE = ("Partial in two named respects: buffer compaction/expansion and byte-buffer refills are correspondence-only; "
-              "C08_ws_lengthening is a `_full` def awaiting the lexer model. Trusted: Lean kernel, the hand-written Fill model "
+              "stream (C08_handle_eol); the buffer moves of get_more_chars preserve the token being scanned for every state "
+              "(C08_buffer_moves_preserve_token) and every read asks for >= 1 units (C08_buffer_room); replacing a separator by "
+              "any other whitespace/comment run leaves the whole following token stream unchanged up to the line shift "
+              "(C08_ws_lengthening, on gD's C01_lex_sep plus the line-shift invariance of the lexer model proved here).")
+LEVEL_NOTE = ("Partial in the respects named in PARTIAL (byte-buffer refills / ICU observed only; same-column precondition of "
+              "C08_ws_lengthening). Trusted: Lean kernel, the hand-written Fill model "
               "(tied exhaustively on short streams and by random long ones), translate_consts.py, harness + oracles.")
 TECHNIQUE = "Lean 4 proof by induction over chunkings with the carried scanner state as invariant + exhaustive/random differential execution of the real fill functions and parser"
